@@ -3,8 +3,20 @@
 // on batches of up to the configured maximum (and one beyond), full of exact duplicates, duplicates up
 // to the order of contextual tuples, and near-duplicates that differ only in the request context, in
 // the contextual tuples, or in the condition context of one contextual tuple.  Each item is also sent as
-// a standalone Check through the same checker; the output lists, per item in request order,
+// a standalone Check; the output lists, per item in request order,
 // "<correlation id>=<batch outcome>/<standalone outcome>".
+//
+// The batch shares ONE checker among its items (as Server.BatchCheck does); every standalone Check gets a
+// FRESH checker (as Server.Check builds one command per request), so state that a shared command keeps
+// from one item to the next shows up as a difference.
+//
+// Two more batch shapes:
+//   - "independent": every item has its own tuple key and its own contextual tuples, which decide its answer
+//     (the request probes one of its contextual tuples; or repeats the previous question without them);
+//   - "fault" (engine token `v1!<object>`): 10-30 healthy items plus one whose object makes every datastore
+//     read fail with an error wrapping context.DeadlineExceeded while the request context is alive
+//     (harness/c07/fault.go).  A batch outcome `context canceled` while the request context is alive is
+//     printed as "Ecancel-live": no standalone Check can produce it.
 package main
 
 import (
@@ -23,6 +35,7 @@ import (
 	"github.com/openfga/openfga/internal/modelgraph"
 	"github.com/openfga/openfga/internal/validation"
 	"github.com/openfga/openfga/pkg/server/commands"
+	"github.com/openfga/openfga/pkg/storage"
 	"github.com/openfga/openfga/pkg/typesystem"
 	"github.com/openfga/openfga/verifharness/fga"
 	"github.com/openfga/openfga/verifharness/fgarun"
@@ -78,6 +91,13 @@ func cloneT(ts []fga.Tuple) []fga.Tuple {
 func gen(r *hx.Rand, n int, tier string, emit func(string), st *hx.Stats) {
 	for i := 0; i < n; i++ {
 		c := r.Fork()
+		shape := "variations"
+		switch k := c.Intn(20); {
+		case k < 2:
+			shape = "fault"
+		case k < 6:
+			shape = "independent"
+		}
 		m, ts := fga.GenModel(c, fga.DefaultOpts())
 		if c.Chance(1, 4) {
 			m, ts = fga.GenStrategyModel(c)
@@ -103,6 +123,90 @@ func gen(r *hx.Rand, n int, tier string, emit func(string), st *hx.Stats) {
 				out = append(out, t)
 			}
 			return out
+		}
+		// probe: a request that asks for exactly what one contextual tuple grants
+		probe := func(t fga.Tuple) fga.Req {
+			rq := fga.Req{Obj: t.Obj, Rel: t.Rel, User: t.User, Ctx: fga.GenReqCtx(c, m)}
+			if strings.HasSuffix(t.User, ":*") && c.Chance(2, 3) {
+				rq.User = fga.Ent(m, fga.TypeOf(t.User), hx.Pick(c, []string{"x", "y", "z", "a", "b"}))
+			}
+			return rq
+		}
+		// independent items: own tuple key, own contextual tuples that decide the answer
+		genIndependent := func(k int) []item {
+			var out []item
+			for j := 0; j < k; j++ {
+				var it item
+				switch x := c.Intn(8); {
+				case x < 4:
+					it.ctxT = genCtxTuples(1 + c.Intn(2))
+					if len(it.ctxT) > 0 {
+						it.rq = probe(hx.Pick(c, it.ctxT))
+						st.Inc("item:probe-own-contextual")
+					} else {
+						it.rq = fga.GenReq(c, m, tuples)
+						st.Inc("item:plain")
+					}
+				case x < 5 && len(out) > 0 && len(out[len(out)-1].ctxT) > 0:
+					// the previous question again, WITHOUT its contextual tuples
+					it.rq = out[len(out)-1].rq
+					it.rq.Ctx = append([]fga.KV(nil), it.rq.Ctx...)
+					st.Inc("item:previous-without-contextual")
+				case x < 7:
+					it.rq = fga.GenReq(c, m, tuples)
+					it.ctxT = genCtxTuples(1 + c.Intn(3))
+					st.Inc("item:own-contextual")
+				default:
+					it.rq = fga.GenReq(c, m, tuples)
+					st.Inc("item:plain")
+				}
+				it.cid = fmt.Sprintf("c%d", j)
+				out = append(out, it)
+			}
+			return out
+		}
+		if shape != "variations" {
+			engine := "v1"
+			if c.Chance(1, 4) {
+				engine = "v2"
+			}
+			conc := hx.Pick(c, []int{1, 1, 4, 8, 50})
+			var items []item
+			if shape == "independent" {
+				items = genIndependent(2 + c.Intn(11))
+			} else {
+				items = genIndependent(10 + c.Intn(21))
+				// the faulty item: its object times out in the datastore; mostly an object nobody else touches
+				ots := []string{}
+				for _, t := range m.Types {
+					if len(t.Rels) > 0 {
+						ots = append(ots, t.Name)
+					}
+				}
+				ot := hx.Pick(c, ots)
+				fobj := ot + ":slow"
+				if c.Chance(1, 4) && len(tuples) > 0 {
+					fobj = hx.Pick(c, tuples).Obj
+					ot = fga.TypeOf(fobj)
+				}
+				var frel string
+				for _, t := range m.Types {
+					if t.Name == ot && len(t.Rels) > 0 {
+						frel = hx.Pick(c, t.Rels).Name
+					}
+				}
+				if frel != "" {
+					f := item{cid: "slow", rq: fga.Req{Obj: fobj, Rel: frel, User: fga.Ent(m, "user", hx.Pick(c, []string{"x", "y", "z"})), Ctx: fga.GenReqCtx(c, m)}}
+					at := c.Intn(len(items) + 1)
+					items = append(items[:at], append([]item{f}, items[at:]...)...)
+					engine += "!" + fobj
+					conc = hx.Pick(c, []int{1, 1, 4, 8})
+				}
+			}
+			emit(encode(engine, conc, 50, m, ts, tuples, items))
+			st.Inc("batches:" + shape + ":" + engine[:2])
+			st.Add("items", len(items))
+			continue
 		}
 		// a few base requests; the batch is made of variations of them
 		nb := 1 + c.Intn(4)
@@ -285,11 +389,34 @@ func exec(line string, st *hx.Stats) string {
 	if err != nil {
 		return "invalid-model"
 	}
-	ds := fgarun.Store(tuples)
-	defer ds.Close()
+	mem := fgarun.Store(tuples)
+	defer mem.Close()
+	var ds storage.OpenFGADatastore = mem
+	if i := strings.IndexByte(engine, '!'); i >= 0 {
+		ds = &faultDS{OpenFGADatastore: mem, object: engine[i+1:]}
+		engine = engine[:i]
+	}
 
-	var checker commands.Checker
-	mkV1 := func() (commands.Checker, func(), error) {
+	// as pkg/server/batch_check.go: the weighted-graph engine when the model graph resolves, else the default engine
+	var mg *modelgraph.AuthorizationModelGraph
+	if engine == "v2" {
+		if g, err := modelgraph.New(pm); err == nil {
+			mg = g
+		} else {
+			st.Inc("v2-fallback-to-v1")
+		}
+	}
+	// one checker per REQUEST (Server.Check / Server.BatchCheck build their commands per request)
+	mkChecker := func() (commands.Checker, func(), error) {
+		if mg != nil {
+			return commands.NewCheckQuery(
+				commands.WithCheckQueryV2Datastore(ds),
+				commands.WithCheckQueryV2Model(mg),
+				commands.WithCheckQueryV2Planner(&fgarun.ForcedPlanner{Want: "default"}),
+				commands.WithCheckQueryV2ConcurrencyLimit(1),
+				commands.WithCheckQueryV2UpstreamTimeout(20*time.Second),
+			), func() {}, nil
+		}
 		resolver, closer, err := graph.NewOrderedCheckResolvers(
 			graph.WithLocalCheckerOpts(
 				graph.WithResolveNodeBreadthLimit(1),
@@ -303,28 +430,11 @@ func exec(line string, st *hx.Stats) string {
 		}
 		return commands.NewCheckCommand(ds, resolver, ts), closer, nil
 	}
-	if engine == "v2" {
-		// as pkg/server/batch_check.go: the weighted-graph engine when the model graph resolves, else the default engine
-		if mg, err := modelgraph.New(pm); err == nil {
-			checker = commands.NewCheckQuery(
-				commands.WithCheckQueryV2Datastore(ds),
-				commands.WithCheckQueryV2Model(mg),
-				commands.WithCheckQueryV2Planner(&fgarun.ForcedPlanner{Want: "default"}),
-				commands.WithCheckQueryV2ConcurrencyLimit(1),
-				commands.WithCheckQueryV2UpstreamTimeout(20*time.Second),
-			)
-		} else {
-			st.Inc("v2-fallback-to-v1")
-		}
+	checker, closer, err := mkChecker()
+	if err != nil {
+		return "E build " + err.Error()
 	}
-	if checker == nil {
-		c1, closer, err := mkV1()
-		if err != nil {
-			return "E build " + err.Error()
-		}
-		defer closer()
-		checker = c1
-	}
+	defer closer()
 
 	var checks []*openfgav1.BatchCheckItem
 	for _, it := range items {
@@ -348,6 +458,7 @@ func exec(line string, st *hx.Stats) string {
 		Checks:               checks,
 		StoreID:              fgarun.StoreID,
 	})
+	requestAlive := ctx.Err() == nil
 	if err != nil {
 		var ve *commands.BatchCheckValidationError
 		if errors.As(err, &ve) {
@@ -367,10 +478,16 @@ func exec(line string, st *hx.Stats) string {
 	}
 	var parts []string
 	known := map[string]bool{}
+	// the standalone Check of item i, through a checker of its own
 	standalone := func(i int) string {
+		ck, cl, err := mkChecker()
+		if err != nil {
+			return "Ebuild"
+		}
+		defer cl()
 		c2, cancel2 := context.WithTimeout(context.Background(), 20*time.Second)
 		defer cancel2()
-		res, err := checker.Execute(c2, &commands.CheckCommandParams{
+		res, err := ck.Execute(c2, &commands.CheckCommandParams{
 			StoreID:          fgarun.StoreID,
 			TupleKey:         checks[i].GetTupleKey(),
 			ContextualTuples: checks[i].GetContextualTuples(),
@@ -378,30 +495,47 @@ func exec(line string, st *hx.Stats) string {
 		})
 		return outcome(res, err)
 	}
+	// item i as a batch of one (command and checker of its own)
+	batchOfOne := func(i int) string {
+		ck, cl, err := mkChecker()
+		if err != nil {
+			return "Ebuild"
+		}
+		defer cl()
+		c3, cancel3 := context.WithTimeout(context.Background(), 20*time.Second)
+		defer cancel3()
+		one := commands.NewBatchCheckCommand(ck, commands.WithBatchCheckMaxChecksPerBatch(uint32(max)), commands.WithBatchCheckMaxConcurrentChecks(uint32(conc)))
+		r1, _, e1 := one.Execute(c3, &commands.BatchCheckCommandParams{AuthorizationModelID: fgarun.ModelID, Checks: checks[i : i+1], StoreID: fgarun.StoreID})
+		if e1 != nil {
+			return "Ebatch"
+		}
+		if o := r1[commands.CorrelationID(items[i].cid)]; o != nil {
+			return outcome(&commands.CheckResult{Allowed: o.Allowed}, o.Err)
+		}
+		return "missing"
+	}
 	for i, it := range items {
 		known[it.cid] = true
 		b := "missing"
 		if o, ok := results[commands.CorrelationID(it.cid)]; ok && o != nil {
 			b = outcome(&commands.CheckResult{Allowed: o.Allowed}, o.Err)
+			if o.Err != nil && errors.Is(o.Err, context.Canceled) && requestAlive {
+				// the item was cancelled although nobody cancelled the request
+				b = "Ecancel-live"
+			}
 		}
-		// the standalone Check of the same item through the same checker
 		s1 := standalone(i)
 		mark := ""
-		if b != s1 && b != "missing" {
+		if b != s1 && b != "missing" && b != "Ecancel-live" {
 			// Check itself may be non-deterministic on this input (C02: exclusion / intersection races on
-			// cyclic models): ask again, standalone and as a batch of one
+			// cyclic models): ask again, standalone and as a batch of one.  Only an answer of Check that varies
+			// from call to call on the SAME path excuses the difference; a full batch that differs from stable
+			// standalone answers and from stable batches of one does not.
 			st.Inc("recheck")
+			b1 := batchOfOne(i)
 			for rep := 0; rep < 12 && mark == ""; rep++ {
-				if standalone(i) != s1 {
+				if standalone(i) != s1 || batchOfOne(i) != b1 {
 					mark = "~"
-				}
-				c3, cancel3 := context.WithTimeout(context.Background(), 20*time.Second)
-				r1, _, e1 := cmd.Execute(c3, &commands.BatchCheckCommandParams{AuthorizationModelID: fgarun.ModelID, Checks: checks[i : i+1], StoreID: fgarun.StoreID})
-				cancel3()
-				if e1 == nil {
-					if o := r1[commands.CorrelationID(it.cid)]; o != nil && outcome(&commands.CheckResult{Allowed: o.Allowed}, o.Err) != b {
-						mark = "~"
-					}
 				}
 			}
 		}
